@@ -97,8 +97,11 @@ def special_index_history(rng, res, kind):
                     return
             res.extra["quiescent_points"] = res.extra.get("quiescent_points", 0) + 1
         desc = []
-        for step in range(rng.randrange(6, 14)):
-            r = rng.random()
+        # a recurring shape: changes, checkpoint (index pages reach the file), more changes, crash (the index is rebuilt at launch)
+        script = []
+        for _ in range(rng.randrange(2, 4)):
+            script += [0.1, 0.7, 0.5, 0.9] if rng.random() < 0.6 else [rng.random() for _ in range(rng.randrange(2, 6))]
+        for step, r in enumerate(script):
             if r < 0.4:
                 for _ in range(rng.randrange(3, 15)):
                     k = rng.randrange(nkeys)
@@ -108,7 +111,7 @@ def special_index_history(rng, res, kind):
                     live.add(k); used.append(k) if k not in used else None
                 desc.append("inserts")
             elif r < 0.65 and live:
-                for k in rng.sample(sorted(live), min(len(live), rng.randrange(1, 12))):
+                for k in rng.sample(sorted(live), min(len(live), rng.randrange(4, 20))):
                     # (a point predicate on a hash-indexed column is planned as an index RANGE scan, which the hash index
                     #  does not implement: the OR form goes through the sequential scan)
                     r2 = db.sql(("DELETE FROM sp WHERE a = %d OR a = %d;" % (k, k)) if kind == "h" else ("DELETE FROM sp WHERE b >= 0 AND a = %d;" % k))
@@ -119,7 +122,7 @@ def special_index_history(rng, res, kind):
             elif r < 0.75:
                 db.cmd("checkpoint"); desc.append("checkpoint")
             else:
-                clean = rng.random() < 0.5
+                clean = rng.random() < 0.35
                 db.cmd("close" if clean else "crash", timeout=60)
                 if not clean and rng.random() < 0.5:
                     db.restart_process()
@@ -154,7 +157,7 @@ def run(res, replay=None):
     import enginecorr
     enginecorr.run_corr(res, random.Random(res.seed * 7919 + 7), 100 if res.tier == "quick" else 1500, focus="index")
     c09.btree_probe(res)
-    for i in range(6 if res.tier == "quick" else 60):
+    for i in range(8 if res.tier == "quick" else 80):
         for d, w in special_index_history(rng, res, "uh"[i % 2]):
             if len(res.oracle_failures) < 5:
                 res.oracle_failures.append((d, w))
